@@ -174,6 +174,16 @@ for p in ('C02', 'C03', 'C15', 'C12', 'C06'):
     PLANS[p]['quick'] = PLANS[p]['quick'] + [PROTO_Q]
     PLANS[p]['thorough'] = PLANS[p]['thorough'] + [PROTO_T]
 
+# three arguments: `.apply(this, [..], extra)` / `.call(this, x, y)` -- whatever follows the argument array is still evaluated
+PROTO3_Q = dict(scenario='block_expr', args=dict(policy=expr_profile([['Call'], ['Ident', 'Call', 'Array'], ['Ident', 'Call'], ['Ident']], max_args=(3, 1, 0, 0), names=['a', 'String'], spread=True),
+                                                 pins=PROTO_PINS + [(r'^E/Call\.args\[1\]\.expr$', 'Expr', ['Array', 'Ident']), (r'^E/Call\.args\[0\]\.expr$', 'Expr', ['Ident'])], string_pins=PROTO_STRS, len_pins=[(r'^E/Call\.args$', [3])],
+                                                 opt_pins=[(r'^E/Call\.args\[[01]\]\.spread$', [0])],
+                                                 config=[dict(src='plusOperator', dst=None, operator=True, awc=False), dict(src='concat', dst='stringConcat', operator=False, awc=False), dict(src='substring', dst=None, operator=False, awc=False)]),
+                label='X.prototype.<m>.call|apply(this, second, third): exactly three arguments (third possibly a spread / a call with effects)')
+for p in ('C02', 'C03'):
+    PLANS[p]['quick'] = PLANS[p]['quick'] + [PROTO3_Q]
+    PLANS[p]['thorough'] = PLANS[p]['thorough'] + [PROTO3_Q]
+
 
 # dynamic import / call arguments
 CALLEE_Q = dict(scenario='block_expr', args=dict(policy=expr_profile([['Call', 'New'], ['Bin', 'Tpl', 'Ident', 'Call'], LEAF], max_args=(2, 2, 0), props=['substring', 'foo']), import_callee=True),
@@ -310,6 +320,23 @@ PLANS['C13']['quick'] = PLANS['C13']['quick'] + [TRANSFORM_Q]
 PLANS['C13']['thorough'] = PLANS['C13']['thorough'] + [TRANSFORM_Q]
 
 
+# rewrite_js: the public entry point around transform_js
+from scenario import RewriteScenario
+
+_prev_make_rw = make_scenario
+
+
+def make_scenario(name, args):
+    if name == 'rewrite':
+        sp = apply_pins(StmtPolicy(**args['policy']), args)
+        cfg = ConfigSpec(args.get('config', DEFAULT_CFG), prefix='test', verbosity=args.get('verbosity', 'Information'), literals=args.get('literals', False), comments=args.get('comments', False))
+        return RewriteScenario(sp, cfg, kinds=args.get('kinds', ('Script',)), prologue=True)
+    return _prev_make_rw(name, args)
+
+
+REWRITE_Q = dict(scenario='rewrite', args=dict(policy=stmt_profile([['Block', 'Expr'], ['Expr', 'Return']], [['Bin', 'Ident', 'Lit'], ['Ident', 'Lit']], names=['a', '__datadog_test_0'], params=(0,), op_budget=1, all_present=True), kinds=('Script', 'Module'), verbosity=['Off', 'Information']),
+                 label='rewrite_js (entry point) with swc stubbed: file names {dir/test.js, test.js, <anonymous>} x parser Ok|Err x small programs (modified / not modified / cancelled); the FileName the input is registered under, error propagation, everything TRANSFORM_Q checks')
+
 # chain_source_maps
 from scenario import ChainScenario
 
@@ -382,8 +409,8 @@ PLANS['C04']['thorough'] = PLANS['C04']['thorough'] + [PROTO_T]
 
 PLANS['C04']['quick'] = PLANS['C04']['quick'] + [OPTCHAIN_Q]
 PLANS['C04']['thorough'] = PLANS['C04']['thorough'] + [OPTCHAIN_Q]
-PLANS['C04']['quick'] = PLANS['C04']['quick'] + [FLAGS_Q]
-PLANS['C04']['thorough'] = PLANS['C04']['thorough'] + [FLAGS_Q]
+PLANS['C04']['quick'] = PLANS['C04']['quick'] + [FLAGS_Q, SYMCFG_Q]
+PLANS['C04']['thorough'] = PLANS['C04']['thorough'] + [FLAGS_Q, SYMCFG_Q]
 
 
 # un-instrumented sums (plus operator possibly off) whose operands are instrumented calls, as operands of method calls / templates
@@ -395,6 +422,15 @@ for p in ('C01', 'C02', 'C03', 'C15'):
     PLANS[p]['thorough'] = PLANS[p]['thorough'] + [NESTED_FLAGS_Q]
 
 
+# templates that hold instrumented operations, used as operands / arguments of instrumented operations; template operator on or off
+TPL_OPERAND_Q = dict(scenario='block_expr', args=dict(policy=expr_profile([['Bin', 'Call', 'Assign'], ['Tpl', 'Ident'], ['Bin', 'Call', 'Ident'], ['Ident'], ['Ident']], max_args=(1, 0, 0, 0, 0), op_budget=4, names=['a'], props=['substring'], strs=['s'], bin_ops=['Add'], assign_ops=['AddAssign'], spread=False),
+                                                      config=[dict(src='plusOperator', dst=None, operator=True, awc=False), dict(src='tplOperator', dst=None, operator=None, awc=False), dict(src='substring', dst='stringSubstring', operator=False, awc=False)]),
+                     label='sums / += / method calls whose operands are templates holding instrumented operations (`${a + a}!` + a); template operator flag symbolic')
+for p in ('C02', 'C03', 'C15', 'C01'):
+    PLANS[p]['quick'] = PLANS[p]['quick'] + [TPL_OPERAND_Q]
+    PLANS[p]['thorough'] = PLANS[p]['thorough'] + [TPL_OPERAND_Q]
+
+
 # arrows / closures under every operator configuration (operators individually on or off, one method configured)
 ARROW_FLAGS_Q = dict(scenario='block_expr', args=dict(policy=expr_profile([['Arrow', 'Call', 'Bin'], ['Arrow', 'Call', 'Bin', 'Ident', 'Tpl'], ['Ident', 'Call', 'Member'], ['Ident']], max_args=(1, 1, 0, 0), names=['a'], props=['substring'], bin_ops=['Add'], spread=False, op_budget=3),
                                                      config=[dict(src='plusOperator', dst=None, operator=None, awc=False), dict(src='tplOperator', dst=None, operator=None, awc=False), dict(src='substring', dst='stringSubstring', operator=False, awc=False)]),
@@ -403,6 +439,22 @@ for p in ('C06', 'C02', 'C01', 'C12'):
     PLANS[p]['quick'] = PLANS[p]['quick'] + [ARROW_FLAGS_Q]
     PLANS[p]['thorough'] = PLANS[p]['thorough'] + [ARROW_FLAGS_Q]
 
+# an arrow as a LATER operand/argument of an operation whose earlier operand needed temporaries (numbering across siblings)
+ARROW_SIBLING_Q = dict(scenario='block_expr', args=dict(policy=expr_profile([['Call', 'Bin', 'Tpl'], ['Bin', 'Call', 'Ident', 'Arrow', 'Member'], ['Ident', 'Call', 'Bin'], ['Ident']], max_args=(2, 2, 0, 0), names=['a'], props=['substring'], bin_ops=['Add'], spread=False, op_budget=4),
+                                                        pins=[(r'\.args\[1\]\.expr$', 'Expr', ['Arrow'])],
+                                                        config=[dict(src='plusOperator', dst=None, operator=True, awc=False), dict(src='tplOperator', dst=None, operator=True, awc=False), dict(src='substring', dst='stringSubstring', operator=False, awc=False)]),
+                       label='operations whose first operand/argument needs temporaries (`b + c()`) and whose second is an expression-bodied arrow or a call taking one')
+for p in ('C06', 'C01', 'C02'):
+    PLANS[p]['quick'] = PLANS[p]['quick'] + [ARROW_SIBLING_Q]
+    PLANS[p]['thorough'] = PLANS[p]['thorough'] + [ARROW_SIBLING_Q]
+
 
 PLANS['C13']['quick'] = PLANS['C13']['quick'] + [PRIVATE_Q]
 PLANS['C13']['thorough'] = PLANS['C13']['thorough'] + [PRIVATE_Q]
+
+PLANS['C01']['quick'] = PLANS['C01']['quick'] + [PROTO3_Q]
+PLANS['C01']['thorough'] = PLANS['C01']['thorough'] + [PROTO3_Q]
+
+for p in ('C09', 'C12', 'C13'):
+    PLANS[p]['quick'] = PLANS[p]['quick'] + [REWRITE_Q]
+    PLANS[p]['thorough'] = PLANS[p]['thorough'] + [REWRITE_Q]
